@@ -131,7 +131,7 @@ func init() {
 	register(&Def{
 		ID:          "C02",
 		Technique:   "constant tables (error codes, sentinels, null token) resolved through go/types, dominance rules in the parser, reader and check/assign functions, running-state typestate, explicit-panic inventory",
-		Explanation: "Decides: (D1) the five standard codes equal the specification's; every validation failure in the member parser uses a constant code ∈ {-32700,-32600}; undecodable message → -32700 sentinel, empty batch → -32600, empty method → -32600, unknown/reserved method → -32601, duplicate id → -32600; (D2) a member's deferred validation error is carried into its task, handlers are assigned and invoked only on the err == nil edge; (D3) the parser keeps an id only on the isValidID edge and exactly the 4-byte token null counts as absent; (D4) the reader uses channel, work signal and queue only with the running state established (no crash after stop), and the explicit panics in library code are the inventoried eight; (D5) emitted literals carry the Version the parser checks; (D6) a push-enabled server never keeps an unmatched reply for dispatch; (D7) decode-error and empty-batch edges are each answered once, directly, with id null, and never queued. (D8) the id validity predicate classifies the raw token and never runs it through a numeric parser (every JSON number is a valid id).",
+		Explanation: "Decides: (D1) the five standard codes equal the specification's; every validation failure in the member parser uses a constant code ∈ {-32700,-32600}; undecodable message → -32700 sentinel, empty batch → -32600, empty method → -32600, unknown/reserved method → -32601, duplicate id → -32600; (D2) a member's deferred validation error is carried into its task, handlers are assigned and invoked only on the err == nil edge; (D3) the parser keeps an id only on the isValidID edge and exactly the 4-byte token null counts as absent; (D4) the reader uses channel, work signal and queue only with the running state established (no crash after stop), and the explicit panics in library code are the inventoried eight; (D5) emitted literals carry the Version the parser checks; (D6) a push-enabled server never keeps an unmatched reply for dispatch; (D7) decode-error and empty-batch edges are each answered once, directly, with id null, and never queued. (D8) the id validity predicate classifies the raw token and never runs it through a numeric parser (every JSON number is a valid id). (D9) the member parser records a failure exactly when a member has a method together with a result or an error (truth table over the three members).",
 		NotDecided:  []string{"that each individual byte string gets the listed answer (input-exhaustive claim)", "which of several applicable codes a multi-defect member gets (map iteration order)", "panics inside dependencies"},
 		Assumptions: []string{"encoding/json rejects exactly invalid JSON"},
 		RuleText:    ruleText,
@@ -199,7 +199,7 @@ func init() {
 	register(&Def{
 		ID:          "C14",
 		Technique:   "effect (alias/taint) analysis of WithData, identity-accessor rule, decision-list extraction of ErrorCode, provenance of the response's error member and of the client's settled fields, constant tables of filterError vs ErrorCode",
-		Explanation: "Decides: (D1) WithData performs no store, append, copy or map update that reaches memory owned by its receiver; (D2) every ErrCode method returns its receiver's code unchanged and Code.Err returns nil exactly for NoError, else the code itself; (D3) ErrorCode's decision list is nil → NoError, ErrCoder → its code, Canceled → Cancelled, DeadlineExceeded → DeadlineExceeded, else SystemError, in that order; (D4) the response builder forwards an *Error by identity (type assertion on task.err, no unwrapping) and maps any other error to Code = ErrorCode(task.err) (InternalError only on the NoError edge), Message = task.err.Error(); (D5) a Response settles with exactly the received message's error and result, Call/Callback return it through filterError, and filterError inverts ErrorCode on the two context sentinels; (D6) the invoke function returns json.Marshal's pair unmodified. (D7) when marshalling a callback result fails, the reply gets an error member on every path. (D8) every store into an Error's fields in the root package goes to a value allocated in the same function: sentinels, handler errors and decoded wire errors are never modified. (D9) every non-nil result of Code.Err is the receiver itself; filterError restores a context sentinel on the error's code alone. (D10) the response builder sets the result member only on the task.err == nil edge (never on a comparison of the error's code).",
+		Explanation: "Decides: (D1) WithData performs no store, append, copy or map update that reaches memory owned by its receiver; (D2) every ErrCode method returns its receiver's code unchanged and Code.Err returns nil exactly for NoError, else the code itself; (D3) ErrorCode's decision list is nil → NoError, ErrCoder → its code, Canceled → Cancelled, DeadlineExceeded → DeadlineExceeded, else SystemError, in that order; (D4) the response builder forwards an *Error by identity (type assertion on task.err, no unwrapping) and maps any other error to Code = ErrorCode(task.err) (InternalError only on the NoError edge), Message = task.err.Error(); (D5) a Response settles with exactly the received message's error and result, Call/Callback return it through filterError, and filterError inverts ErrorCode on the two context sentinels; (D6) the invoke function returns json.Marshal's pair unmodified. (D7) when marshalling a callback result fails, the reply gets an error member on every path. (D8) every store into an Error's fields in the root package goes to a value allocated in the same function: sentinels, handler errors and decoded wire errors are never modified. (D9) every non-nil result of Code.Err is the receiver itself; filterError restores a context sentinel on the error's code alone. (D10) the response builder sets the result member only on the task.err == nil edge (never on a comparison of the error's code). Also decided: every return of Response.UnmarshalResult other than the response's own error is on the err == nil edge.",
 		NotDecided:  []string{"JSON-equality of data across the wire", "behaviour of arbitrary user ErrCoder / Unwrap chains beyond errors.As/Is"},
 		Assumptions: []string{"errors.As / errors.Is semantics"},
 		RuleText:    ruleText,
